@@ -22,6 +22,13 @@ type seed struct {
 }
 
 var seeds = []seed{
+	{"frozenView checks the type code with an upper bound only", "L4", "serialization_littleendian.go", "\t\t\tnRunEl += int(counts[i])\n\t\tdefault:\n\t\t\treturn ErrFrozenBitmapInvalidTypecode\n\t\t}", "\t\t\tnRunEl += int(counts[i])\n\t\t}\n\t\tif t > 3 {\n\t\t\treturn ErrFrozenBitmapInvalidTypecode\n\t\t}", "type codes checked exhaustively"},
+	{"readFrom reuses keys under the capacity test of containers", "T1", "roaringarray.go", "\tif cap(ra.keys) >= int(size) {\n", "\tif cap(ra.containers) >= int(size) {\n", "reslice roaringArray.keys"},
+	{"FromDense extends the caller's words up to their capacity", "B6", "roaring.go", "func (rb *Bitmap) FromDense(bitmap []uint64, doCopy bool) {\n", "func (rb *Bitmap) FromDense(bitmap []uint64, doCopy bool) {\n\tif cap(bitmap) > len(bitmap) && cap(bitmap)%1024 == 0 {\n\t\tbitmap = bitmap[:cap(bitmap)]\n\t}\n", "FromDense|param:bitmap"},
+	{"Unset creates its iterator outside the sequence function", "F12", "iter.go", "\treturn func(yield func(uint32) bool) {\n\t\tit := b.UnsetIterator(uint64(min), uint64(max)+1)\n", "\tit := b.UnsetIterator(uint64(min), uint64(max)+1)\n\treturn func(yield func(uint32) bool) {\n", "roaring.Unset"},
+	{"roaring64 FromBase64 decodes the URL alphabet", "L1", "roaring64/roaring64.go", "\tdata, err := base64.StdEncoding.DecodeString(str)", "\tdata, err := base64.URLEncoding.DecodeString(str)", "alphabet"},
+	{"32-bit BSI addDigit adopts the caller's bitmap as a plane", "A3.bsi", "BitSliceIndexing/bsi.go", "\tif i >= len(b.bA) {\n\t\tb.bA = append(b.bA, roaring.NewBitmap())\n\t}\n\tcarry := roaring.And(b.bA[i], foundSet)", "\tif i >= len(b.bA) {\n\t\tb.bA = append(b.bA, foundSet)\n\t\treturn\n\t}\n\tcarry := roaring.And(b.bA[i], foundSet)", "addDigit"},
+	{"twosComplement takes the absolute value in place", "A1.bsi", "roaring64/bsi64.go", "\tabs := new(big.Int).Abs(num)\n", "\tabs := num.Abs(num)\n", "twosComplement|constant num"},
 	{"ReadFrom forgets to forward the pre-read cookie", "U3", "roaring.go", "\tp, err = rb.highlowcontainer.readFrom(stream, cookieHeader...)\n", "\tp, err = rb.highlowcontainer.readFrom(stream)\n", "ReadFrom|param:cookieHeader"},
 	{"ParHeapOr worker returns its scratch slice to the pool before it is done with it", "PT2", "parallel.go", "\t\t\tfor _, next := range input.containers[2:] {\n\t\t\t\tc = c.lazyIOR(next)\n\t\t\t}\n", "\t\t\trest := input.containers[2:]\n\t\t\tpool.Put(input.containers[:0])\n\t\t\tfor _, next := range rest {\n\t\t\t\tc = c.lazyIOR(next)\n\t\t\t}\n", "ParHeapOr$2|Pool.Put"},
 	{"roaring64 FromUnsafeBytes appends to whatever the receiver held", "R1", "roaring64/roaring64.go", "\trb.highlowcontainer.resize(0)\n\tfor i := uint64(0); i < size; i++ {\n\t\tkeyBuf, err := stream.Next(4)", "\tfor i := uint64(0); i < size; i++ {\n\t\tkeyBuf, err := stream.Next(4)", "FromUnsafeBytes"},
